@@ -182,7 +182,7 @@ CLAIMED['C14'] = {
 
 CLAIMED['C12'] = {
     'category': 'proof',
-    'text': 'make_merchant_id proved injective and stable on the real helper (calls sharing the report state, while loop unrolled with an unwinding assertion); definite-assignment clause '
+    'text': 'make_merchant_id proved against a representation invariant of the state shared by all calls of one report (every recorded id is in used_ids, different names have different ids): one call from any such state returns the recorded id of a known name unchanged, or an unused id that is then recorded, and preserves the invariant - so ids are injective and stable for any number of merchants (while loop cut at its invariant, no bound); definite-assignment clause '
             '(every name read in a renderer is bound), figure data-flow clauses (each renderer shows the analysed stats fields) and embedding clauses (escaping replaces present, data substituted last, '
             'transaction ids indexed) decided syntactically over the real AST. The replace_all string obligation is beyond both solvers; it, the html.parser+json round trip and the category sums are '
             'exercised by the labelled bounded oracle. One recorded known finding (JSON summary recomputes figures).',
